@@ -1,3 +1,4 @@
 import Gen.Tables
 import Gen.Facts
 import Gen.AstroAll
+import Gen.AstroKAll
